@@ -1076,6 +1076,25 @@ class Engine:
             env[t.id] = v
             self.note_write(('local', t.id))
         elif isinstance(t, (ast.Tuple, ast.List)):
+            stars = [k for k, tt in enumerate(t.elts) if isinstance(tt, ast.Starred)]
+            if stars:
+                # a, *rest, z = seq
+                if len(stars) > 1:
+                    raise EngineError('two starred targets')
+                items = self.concrete_items(v)
+                if items is None:
+                    raise EngineError('starred unpacking of a symbolic sequence')
+                k = stars[0]
+                after = len(t.elts) - k - 1
+                if len(items) < len(t.elts) - 1:
+                    raise PyRaise('ValueError', ('not enough values to unpack',))
+                for tt, vv in zip(t.elts[:k], items[:k]):
+                    self.assign(tt, vv, env)
+                mid = items[k:len(items) - after]
+                self.assign(t.elts[k].value, SList([('conc', list(mid))]), env)
+                for tt, vv in zip(t.elts[k + 1:], items[len(items) - after:] if after else []):
+                    self.assign(tt, vv, env)
+                return
             vals = self.unpack(v, len(t.elts))
             for tt, vv in zip(t.elts, vals):
                 self.assign(tt, vv, env)
@@ -2680,9 +2699,10 @@ class Engine:
         if node is None:
             return False
         for x in ast.walk(node):
-            if isinstance(x, (ast.For, ast.While, ast.ListComp, ast.GeneratorExp, ast.SetComp, ast.DictComp,
-                              ast.Yield, ast.YieldFrom, ast.Lambda)):
+            if isinstance(x, (ast.While, ast.Yield, ast.YieldFrom)):
                 return False
+        # loops and comprehensions are allowed: over concrete sequences they are simply executed, over symbolic ones the
+        # engine stops with "no loop specification" exactly as it would for a function listed for inlining
         return True
 
     def construct(self, cref, args, kwargs):
